@@ -1,4 +1,5 @@
 import MpsProofs.Handler
+import MpsProofs.TwoParty
 import MpsGen.Session
 /-
   C17 — Handler lifecycle is well-defined (all call sequences) and lock-protected.
@@ -84,6 +85,47 @@ theorem not_canAccept_noop (H : Bytes → Bytes) (s : State) (m : Msg) (h : canA
 /-- a duplicate (same round, sender and kind already stored) changes nothing -/
 theorem duplicate_noop (H : Bytes → Bytes) (s : State) (m : Msg) (h : duplicate s m = true) :
     Handler.accept H s m = s := by simp [Handler.accept, h]
+
+/-! ### The same for `TwoPartyHandler` (model: Mps.TwoParty) -/
+
+section twoparty
+open Mps.TwoParty
+
+/-- lifecycle invariant of the two-party handler, for every script and every sequence of calls -/
+theorem twoparty_lifecycle (sc : Script2) (calls : List Call2) : Good2 (run2 sc calls) := run2_good sc calls
+
+theorem twoparty_close_at_most_once (sc : Script2) (calls : List Call2) : (run2 sc calls).closes ≤ 1 := by
+  rcases run2_good sc calls with l | d
+  · rw [l.1]; exact Nat.zero_le _
+  · rw [d.1]; exact Nat.le_refl _
+
+theorem twoparty_closed_iff_ended (sc : Script2) (calls : List Call2) :
+    (run2 sc calls).closes = 1 ↔ terminal2 (run2 sc calls) = true := by
+  rcases run2_good sc calls with l | d
+  · simp [l.1, not_terminal2_of_live l]
+  · simp [d.1, terminal2_of_done d]
+
+theorem twoparty_ended_is_final (sc : Script2) (calls more : List Call2) (h : terminal2 (run2 sc calls) = true) :
+    run2 sc (calls ++ more) = run2 sc calls := by
+  unfold run2 at *
+  rw [List.foldl_append]
+  generalize List.foldl apply2 (init2 sc) calls = s at h
+  induction more with
+  | nil => rfl
+  | cons c cs ih =>
+    rw [List.foldl_cons]
+    have : apply2 s c = s := by
+      cases c <;> simp only [apply2]
+      · exact accept2_terminal s _ h
+      · exact stop2_terminal s h
+    rw [this]; exact ih
+
+theorem twoparty_stop_running_errors (sc : Script2) (calls : List Call2) (h : terminal2 (run2 sc calls) = false) :
+    (stop2 (run2 sc calls)).err = some .stopped ∧ (stop2 (run2 sc calls)).closes = 1 := by
+  rcases run2_good sc calls with l | d
+  · simp [stop2, h, abort2, l.1]
+  · rw [terminal2_of_done d] at h; cases h
+end twoparty
 
 /-! ### Lock discipline (regenerated from the source) -/
 
